@@ -276,6 +276,16 @@ def run(ctx):
                               "takes %s ms (%s; control connection lost during the stream: %s)" % (
                                   what, sr["spacing_ms"], sr["peers_delay_ms"], "never during the 3 s stream" if v < 0 else "%d ms" % v,
                                   bool(sr["control_connections_lost_during_streams"])), replay=sr)
+    # two changes one refresh apart: the second is announced while the first refresh waits for its answer
+    for pd in ("150", "300"):
+        ctx.drv(["stream", "-double", "-out", sout, "-window", "100", "-peersdelay", pd], timeout=300)
+        sr = json.load(open(sout))
+        streams.append(sr)
+        v = sr["added_routed_after_ms"]
+        if v < 0 or v > 1500 + int(pd):
+            ctx.violation("C16:second-change-during-refresh:added_routed",
+                          "a node that joined while the refresh caused by an earlier change was waiting for its answer (%s ms) is not routed to within 15 refresh "
+                          "windows of its own announcement (%s)" % (pd, "not within 3 s" if v < 0 else "%d ms" % v), replay=sr)
     ctx.notes["event_streams"] = streams
     # Backoff table
     bres = ctx.tlc_must_pass("Backoff", "Backoff.cfg", workers=2, timeout=600, name="backoff")
